@@ -37,6 +37,12 @@ type Pkg struct {
 	Glue      []string          `json:"glue"`   // files (relative to /verif) copied in as .go
 	Need      []string          `json:"need"`   // top-level identifiers that must exist after lifting
 	Strip     []string          `json:"stripbuildtags"`
+	Extract   []Extract         `json:"extract"` // constants/variables copied verbatim from other files of the original package
+}
+
+type Extract struct {
+	File  string   `json:"file"`
+	Names []string `json:"names"`
 }
 
 type Spec struct {
@@ -131,6 +137,50 @@ func liftPkg(p Pkg, repo, goroot, out, verif string) {
 		name := strings.NewReplacer("/", "_").Replace(filepath.Base(src))
 		outp := filepath.Join(dir, "lifted_"+name)
 		if err := os.WriteFile(outp, buf.Bytes(), 0o644); err != nil {
+			fail("%v", err)
+		}
+	}
+	for xi, ex := range p.Extract {
+		src := strings.ReplaceAll(ex.File, "${REPO}", repo)
+		data, err := os.ReadFile(src)
+		if err != nil {
+			fail("read %s: %v", src, err)
+		}
+		sum := sha256.Sum256(data)
+		hashes[ex.File+" (declarations "+strings.Join(ex.Names, ",")+")"] = hex.EncodeToString(sum[:])
+		fset := token.NewFileSet()
+		af, err := parser.ParseFile(fset, src, data, 0)
+		if err != nil {
+			fail("parse %s: %v", src, err)
+		}
+		want := map[string]bool{}
+		for _, n := range ex.Names {
+			want[n] = true
+		}
+		var sb strings.Builder
+		fmt.Fprintf(&sb, "package %s\n\n// declarations copied verbatim from %s\n", p.Name, filepath.Base(src))
+		for _, d := range af.Decls {
+			gd, ok := d.(*ast.GenDecl)
+			if !ok || (gd.Tok != token.CONST && gd.Tok != token.VAR) {
+				continue
+			}
+			for _, sp := range gd.Specs {
+				vs := sp.(*ast.ValueSpec)
+				for i, n := range vs.Names {
+					if want[n.Name] && i < len(vs.Values) {
+						var eb bytes.Buffer
+						format.Node(&eb, fset, vs.Values[i])
+						fmt.Fprintf(&sb, "%s %s = %s\n", gd.Tok, n.Name, eb.String())
+						have[n.Name] = true
+						delete(want, n.Name)
+					}
+				}
+			}
+		}
+		for n := range want {
+			fail("package %s: %q not found in %s", p.Name, n, src)
+		}
+		if err := os.WriteFile(filepath.Join(dir, fmt.Sprintf("extracted_%d.go", xi)), []byte(sb.String()), 0o644); err != nil {
 			fail("%v", err)
 		}
 	}
